@@ -699,6 +699,15 @@ def patterns(n, tier, rnd, n_extra):
         out.append((zl, full_pm(), "0" + s_limited(2)[1:] if n > 1 else "s"))
         out.append(("0" * n, full_pm(), s_limited(2)))
         out.append((full_pm(), zl if n > 1 else full_pm(), z1.replace("+", "s", 1).replace("-", "s", 1) if n > 1 else "0"))
+    if n >= 2:
+        # (6)/(7) the zero SUPPORT stays the same across the three vectors (pure update path on a circuit built at a sparse
+        # vector): alternating support, and first-half-zero support
+        def on(support, symbolic=0):
+            idx = [i for i in range(n) if support[i]]
+            sy = set(idx[-symbolic:]) if symbolic else set()
+            return "".join("0" if not support[i] else ("s" if i in sy else rnd.choice("+-")) for i in range(n))
+        for support in ([i % 2 == 1 for i in range(n)], [i >= n // 2 for i in range(n)], [i < (n + 1) // 2 for i in range(n)]):
+            out.append((on(support), on(support), on(support, 2)))
     if tier == "thorough" and n <= 2:
         alph = ["".join(p) for p in itertools.product("0s", repeat=n)]
         for t in itertools.product(alph, repeat=3):
@@ -844,7 +853,7 @@ def shapes(tier, seed):
         r = random.Random(f"{seed}/{kind}/{cn}/{tier}")
         pats = patterns(n, tier, r, 3 * nt_extra if T else nq_extra)
         if not T:
-            pats = pats[:5 + nq_extra]
+            pats = pats[:8 + nq_extra]
         for t in pats:
             out.append(Shape(f"update/{kind}/{cn}/{t[0]}>{t[1]}>{t[2]}", h_update, dict(kind=kind, cfg=cfg, patts=t),
                              modules=MODS, max_paths=64, group=f"update/{kind}"))
